@@ -1640,7 +1640,13 @@ impl<'a> Gen<'a> {
     /// sub aggregation collectors are fed by several flushes announcing different bucket ranges.
     pub fn gen_bucket_over_any_sub(&mut self) -> ((String, Agg), String) {
         let branch = self.rng.weighted(&[40, 20, 8, 10, 2, 20]);
-        let top = self.rng.chance(2, 3);
+        // below another bucket aggregation every parent buffers its sub aggregations in the
+        // partitioned (high cardinality) buffer: preferred when segments are flushed more than once
+        let top = if self.corpus.docs.len() > 2048 {
+            self.rng.chance(1, 3)
+        } else {
+            self.rng.chance(2, 3)
+        };
         let depth = self.rng.urange(0, 1);
         let (name, mut parent) = self.gen_bucket_branch(branch, depth, top);
         let composite = matches!(parent, Agg::Composite { .. });
@@ -1677,7 +1683,20 @@ impl<'a> Gen<'a> {
         for _ in 0..n {
             if self.rng.chance(70, 100) {
                 let depth = self.rng.weighted(&[25, 45, 30]); // sub levels below the bucket
-                aggs.push(self.gen_bucket(depth, true));
+                let mut a = self.gen_bucket(depth, true);
+                // beyond the default bucket limit (65 000) the correct answer is an error, which
+                // tells nothing: such trees (high-cardinality terms x histogram grid on the large
+                // corpora) are drawn again, at most three times
+                for _ in 0..3 {
+                    if self.est_buckets(&a.1) <= 40_000.0 {
+                        break;
+                    }
+                    a = self.gen_bucket(depth.min(1), true);
+                }
+                if self.est_buckets(&a.1) > 40_000.0 {
+                    a = self.gen_metric();
+                }
+                aggs.push(a);
             } else {
                 aggs.push(self.gen_metric());
             }
